@@ -181,6 +181,49 @@ add("C01", "exploration",
     "Deep-traversal order judged as each-once plus sibling order; sort order only for generic composites.",
     "DESIGN.md section 4, C01")
 
+add("C02", "exploration",
+    "property-based testing with Hypothesis: generated objects + composition-edit programs, aggregates recomputed from component primitives",
+    "Generated blocks (15 shapes, 44 materials) and whole blueprint reactors (hex, Cartesian and theta-R-Z; symmetry factors 1-4) with "
+    "composition-edit programs at component, block, assembly and core level. Every aggregate is recomputed from component (N,V) "
+    "primitives and compared with the armi getters; every setter is checked after each step for read-back, untouched nuclides and "
+    "renewed additivity; densityTools conversions are checked as inverse pairs.",
+    "Component.getNumberDensities() (the stored dict), Component.getVolume(), directory weights and element membership, unit constants, "
+    "getSymmetryFactor (cross-checked against the documented centre/edge rule); tolerance rel 1e-10 of the summed absolute terms. One "
+    "known shape (component-level mass setters under a symmetry cut) is excluded by construction.",
+    "DESIGN.md section 4, C02")
+
+add("C05", "exploration",
+    "property-based round trip (Hypothesis) through the pure encoders and real HDF5",
+    "Generated per-object columns (8 shape classes x 18 dtypes x None patterns) and flag-class pairs are pushed through the pure "
+    "encoders, through the real Database._writeParams/_readParams with a probe composite, and through writeToDB/load on real "
+    "parameters, and compared in the documented normal form (about 6.8k columns quick, 236k thorough). Write-time exceptions count as "
+    "rejections, per class.",
+    "h5py/NumPy and the harness norm (shape/kind/value comparison; NaN == unset, -0.0 == 0.0); documented placeholder values are not "
+    "generated in placeholder-scheme columns; numeric kind means bool/int/real/str (width not checked). One known shape (mixed-kind "
+    "column cast to its first entry's type) is excluded by construction.",
+    "DESIGN.md section 4, C05")
+
+add("C06", "fault_enumeration",
+    "complete single-fault enumeration over a real Operator run + model-based snapshot histories (Hypothesis)",
+    "Every cycle layout up to (2 cycles x 2 burn steps; thorough 3x3) with and without tight coupling is run fault-free and once per "
+    "(hook BOL/BOC/EveryNode/Coupled/EOC/EOL x recorder before/after the database interface x cycle x node) with an exception injected "
+    "there, through `with operator:`. The file left in the working directory must exist, open, carry the right successfulCompletion, "
+    "list exactly the completed node snapshots plus the error/EOL snapshot, and every snapshot must load equal to the state captured at "
+    "that moment. Generated programs of state changes, moves, (labelled) writes, re-writes, loads, listings, six history entry points, "
+    "reopen, mergeHistory and splitDatabase are checked against a snapshot-map model after every step (merge/split byte for byte).",
+    "C04's observe() equality and normalisations; h5py; the harness' recorders and reference scheduler; metal-fuel reactors from the "
+    "shared generator. Faults inside the database writer, faults after the EOL close, process kills and ragged histories are excluded.",
+    "DESIGN.md section 4, C06")
+
+add("C11", "exploration",
+    "property-based testing with independent overlap / step-function integrator oracles",
+    "Generated assemblies x target meshes (including refinements and boundaries within 1e-12...1e-6) are judged by an independent "
+    "overlap integrator for atoms, integrated, averaged and peak parameters, there and back. The elevation-window, mesh-filter, "
+    "common-mesh, resampleStepwise and average1DWithinTolerance functions are judged against reference models or validity predicates.",
+    "Block.getVolume and getNumberDensities; equal-area blocks by construction; tolerance 1e-10 (2e-9 near the documented 1e-10 overlap "
+    "cutoff) times the values involved. Averaged parameters with partly unset sources are not asserted.",
+    "DESIGN.md section 4, C11")
+
 NOT_BUILT_REASON = "check not built yet in this round (planned in DESIGN.md section 4); not claimed"
 
 
